@@ -8,9 +8,10 @@ NAMES = ['x', 'y', 'z']
 RULE = ('all ordered pairs of the 256 functions of 3 variables for one spelling of every connective class x '
         'all 6 variable orders x {fresh, warmed-up} managers; every alias spelling on sampled pairs; ITE triples '
         '(all 16^3 over 2 variables, sampled over 3); dd.autoref Function operators on all pairs of 2-variable '
-        'functions. A case is non-trivial if no operand is constant; distinct = (kind, class, operand truth tables, order).')
+        'functions; level-shift histories (lib.shift_history: connectives, ite and `<=` on held functions of 4 variables between undeclarations / '
+        'declarations of unused variables, swaps and re-use of node numbers). A case is non-trivial if no operand is constant; distinct = (kind, class, operand truth tables, order).')
 EXHAUSTIVE = {'quick': False, 'thorough': False}
-REQUIRED_COUNTERS = ['apply-checked', 'ite-checked', 'operator-checked']
+REQUIRED_COUNTERS = ['apply-checked', 'ite-checked', 'operator-checked', 'apply-after-level-shift']
 
 
 def bounds(tier):
@@ -35,6 +36,9 @@ def chunks(tier, seed):
             out.append(('case_ite3', [dict(order=list(o), seed=seed * 100 + k, warm=k % 2,
                                            count=3000 if tier == 'quick' else 20000 * DEEP)]))
         out.append(('case_function_ops', [dict(order=list(o[:2]), seed=seed)]))
+    ns = 40 if tier == 'quick' else 400 * DEEP
+    for k in range(0, ns, 10):
+        out.append(('case_shift', [dict(seed=seed * 4447 + k + i, steps=40) for i in range(10)]))
     return out
 
 
@@ -184,4 +188,42 @@ def case_function_ops(c, res):
     res.evals += len(fs) ** 2 - 1
     r = chk = fa = fb = None
     del fs[:]
+    return keys
+
+
+def case_shift(c, res):
+    """connectives on a few held functions (dd.bdd.apply / ite, dd.autoref operators, `<=`) while unused variables are undeclared / declared,
+    levels swapped and node numbers re-used (lib.shift_history)"""
+    keys = []
+
+    def query(m, b, names, held, rnd):
+        n = len(names)
+        F = full(n)
+        (f, t), (g, s_), (h, r_) = rnd.choice(held), rnd.choice(held), rnd.choice(held)
+        if rnd.random() < .5:
+            f, t = -f, ~t & F
+        if rnd.random() < .5:
+            g, s_ = -g, ~s_ & F
+        cls = rnd.choice(['and', 'or', 'xor', 'implies', 'equiv', 'diff', 'not', 'ite', 'le'])
+        if cls == 'le':
+            got = m._wrap(f) <= m._wrap(g)
+            require(got == ((t & ~s_ & F) == 0), '__le__#post:implication', lambda: f'after declarations changed: {f} <= {g}: {got} (tt {t}, {s_}) order={dict(b.vars)}')
+            res.count('apply-after-level-shift')
+            return
+        sp = rnd.choice(SPELLINGS[cls])
+        auto = rnd.random() < .4
+        w = (lambda x: m._wrap(x)) if auto else (lambda x: x)
+        mm = m if auto else b
+        if cls == 'not':
+            r, want = mm.apply(sp, w(f)), SPEC[cls](n, t)
+        elif cls == 'ite':
+            r, want = (mm.apply(sp, w(f), w(g), w(h)) if rnd.random() < .5 else mm.ite(w(f), w(g), w(h))), SPEC[cls](n, t, s_, r_)
+        else:
+            r, want = mm.apply(sp, w(f), w(g)), SPEC[cls](n, t, s_)
+        got = den(b, r.node if auto else r, names)
+        require(got == want, f'apply[{cls}]#post:connective',
+                lambda: f'after declarations changed: {sp}({f}, {g}, {h}) tt=({t}, {s_}, {r_}) order={dict(b.vars)} auto={auto}: got {got} want {want}')
+        res.count('apply-after-level-shift')
+        keys.append((cls, t, s_, tuple(sorted(b.vars, key=b.vars.get))))
+    shift_history(c, res, query)
     return keys
